@@ -189,6 +189,7 @@ func c07RandomFrame(seed int, pt, count uint8) []byte {
 }
 
 func TestC07(t *testing.T) {
+	defer harness.Uncaught(t)
 	bodies := harness.Scale(3, 24)
 	base := int(harness.SeedFor(7) % (1 << 30))
 
@@ -238,7 +239,7 @@ func TestC07(t *testing.T) {
 			g := rapid.Custom(func(rt *rapid.T) []byte {
 				p := gen.PacketOf(rt, U)
 				if gen.Bool(rt, "pion.encoder") {
-					if b, err := conv.ToPion(p).Marshal(); err == nil {
+					if b, err := safeMarshal(conv.ToPion(p)); err == nil {
 						return b
 					}
 				}
